@@ -17,6 +17,7 @@ import (
 	"os"
 	"path/filepath"
 	"sort"
+	"strconv"
 	"strings"
 	"time"
 
@@ -326,9 +327,29 @@ func genFile(r *hx.Rng, which int, big bool) (fileDesc, bool) {
 					lines[i][j] = r.Range(1, 255) // non-zero so a zero placeholder is distinguishable
 				}
 				if j > 0 {
-					sb.WriteByte(' ')
+					sb.WriteString(hx.Pick(r, []string{" ", " ", " ", "  ", "\t", " \t "})) // one / several blanks, tab
 				}
-				fmt.Fprintf(&sb, "%d", lines[i][j])
+				// the same integer value in the spellings strconv accepts: sign, decimal point, exponent (every
+				// shorter spelling a cut can leave reads as an integer or not at all)
+				v := lines[i][j]
+				switch r.Intn(8) {
+				case 0:
+					fmt.Fprintf(&sb, "%d.0", v)
+				case 1:
+					fmt.Fprintf(&sb, "%d.", v)
+				case 2:
+					fmt.Fprintf(&sb, "%de0", v)
+				case 3:
+					fmt.Fprintf(&sb, "%d0e-1", v)
+				case 4:
+					if v >= 0 {
+						fmt.Fprintf(&sb, "+%d", v)
+					} else {
+						fmt.Fprintf(&sb, "%d", v)
+					}
+				default:
+					fmt.Fprintf(&sb, "%d", v)
+				}
 			}
 			sb.WriteByte('\n')
 		}
@@ -425,6 +446,13 @@ func tokenBoundaries(b []byte, from int) []int {
 	return out
 }
 
+func tailOf(b []byte, n int) string {
+	if len(b) > n {
+		b = b[len(b)-n:]
+	}
+	return string(b)
+}
+
 func plyBodyStart(data []byte) int {
 	he := bytes.Index(data, []byte("end_header\n"))
 	if he < 0 {
@@ -439,16 +467,9 @@ func cutsFor(d fileDesc, data []byte, thorough bool) []int {
 	}
 	var cuts []int
 	switch {
-	case d.Format == "pts":
-		cuts = append([]int{0}, tokenBoundaries(data, 0)...)
-	case d.Format == "ply" && strings.HasPrefix(d.Sub, "ascii"):
-		// header: every byte; body: every token boundary
-		bs := plyBodyStart(data)
-		for k := 0; k <= bs && k < len(data); k++ {
-			cuts = append(cuts, k)
-		}
-		cuts = append(cuts, tokenBoundaries(data, bs)...)
 	default:
+		// every byte, for the ASCII formats too: right after a separator (one / several blanks, tab), right after a
+		// sign, a decimal point, an exponent marker, inside a number, right after the value, on every line
 		for k := 0; k < len(data); k++ {
 			cuts = append(cuts, k)
 		}
@@ -627,6 +648,12 @@ func fileCase(d fileDesc, thorough bool) hx.Case {
 		}
 		need = lo
 	}
+	lastTokStart := need
+	if d.Format == "ply" && ascii {
+		for lastTokStart > bodyStart && !isWs(data[lastTokStart-1]) {
+			lastTokStart--
+		}
+	}
 	framed := d.Gen != nil || d.Aux != "" // judged as a framed decoder without a model: CFramed / CSplatBig
 	for i, k := range cuts {
 		if i >= len(res) || res[i].Cls < 0 {
@@ -637,6 +664,9 @@ func fileCase(d fileDesc, thorough bool) hx.Case {
 			bad(k, fmt.Sprintf("class %d: %s", o.Cls, o.Msg))
 		}
 		if framed && d.Format != "splat" {
+			if d.Gen == nil && d.Format == "ply" && ascii && k > lastTokStart && k < need && !isWs(data[k-1]) && !isWs(data[k]) {
+				continue // inside the last promised value (see below)
+			}
 			eq := o.Cls == clsOk && o.Digest == full.Digest
 			if o.Cls == clsOk && (k < need || !eq) {
 				bad(k, fmt.Sprintf("%s accepted a prefix of %d bytes (%d needed), same result as for the complete file: %v", dec, k, need, eq))
@@ -666,19 +696,36 @@ func fileCase(d fileDesc, thorough bool) hx.Case {
 			if len(lines) > 0 && k > 0 && data[k-1] != '\n' {
 				j, m = len(lines)-1, len(lines[len(lines)-1])
 			}
+			// a cut inside a number: the last token present is a shorter spelling of it
+			ptok := "PNone"
+			if k > 0 && k < len(data) && !isWs(data[k-1]) && !isWs(data[k]) && bytes.IndexByte(data[:k], '\n') >= 0 && m > 0 {
+				m--
+				part := lines[len(lines)-1][m]
+				if v, err := strconv.ParseFloat(part, 64); err == nil && v == math.Trunc(v) && math.Abs(v) < 1e9 {
+					ptok = fmt.Sprintf("(PVal %s)", hx.CoqZ(int64(v)))
+				} else {
+					ptok = "PBad"
+				}
+			}
 			if o.Cls == clsOk {
 				// names the offending cut in the replay; the judgement itself is no_placeholderb in Coq
 				all := lines
-				okLines := hasCount && len(all) >= d.PtsCount && o.N == d.PtsCount
+				okLines := hasCount && len(all) >= d.PtsCount && o.N == d.PtsCount && !(ptok == "PBad" && (m <= 3 || m == 6))
 				for i := 0; okLines && i < d.PtsCount; i++ {
 					okLines = len(all[i]) >= 3 && len(all[i]) == len(all[0])
 				}
 				if !okLines {
-					bad(k, fmt.Sprintf("returned %d points for a prefix holding %d complete lines and %d tokens of the next", o.N, j, m))
+					bad(k, fmt.Sprintf("returned %d points for the prefix ending %q: %d complete lines and %d complete tokens of the next (%s)", o.N, tailOf(data[:k], 24), j, m, ptok))
 				}
 			}
-			obs = append(obs, fmt.Sprintf("((%s,%d%%nat,%d%%nat),%d,%s)", hx.CoqBool(hasCount), j, m, o.Cls, rs))
+			obs = append(obs, fmt.Sprintf("((%s,%d%%nat,%d%%nat,%s),%d,%s)", hx.CoqBool(hasCount), j, m, ptok, o.Cls, rs))
 		default:
+			insideTok := d.Format == "ply" && ascii && k > bodyStart && k < len(data) && !isWs(data[k-1]) && !isWs(data[k])
+			if insideTok && k > lastTokStart && k < need {
+				// inside the last value the header promises: the prefix is (if the shorter spelling still reads as a
+				// number) a complete valid file with another value -- not a cut the property speaks about
+				continue
+			}
 			eq := o.Cls == clsOk && o.Digest == full.Digest
 			if o.Cls == clsOk && (k < need || !eq) {
 				bad(k, fmt.Sprintf("accepted a prefix of %d bytes (%d needed), same mesh as the complete file: %v", k, need, eq))
@@ -687,7 +734,11 @@ func fileCase(d fileDesc, thorough bool) hx.Case {
 			case "spz":
 				obs = append(obs, fmt.Sprintf("(%d,%d,%s,%d)", k, o.Cls, hx.CoqBool(eq), inflatedLen(data[:k])))
 			case "ply":
-				obs = append(obs, fmt.Sprintf("(%d,%d,%s,%s)", k, o.Cls, hx.CoqBool(eq), plyCutPos(data, bodyStart, ascii, k)))
+				pos := plyCutPos(data, bodyStart, ascii, k)
+				if insideTok {
+					pos = "NoModel" // a number cut in the middle: judged by the direct oracle only (must be rejected)
+				}
+				obs = append(obs, fmt.Sprintf("(%d,%d,%s,%s)", k, o.Cls, hx.CoqBool(eq), pos))
 			default:
 				obs = append(obs, fmt.Sprintf("(%d,%d,%s)", k, o.Cls, hx.CoqBool(eq)))
 			}
